@@ -558,9 +558,9 @@ def run_check(pid, tier="quick", seed=0, replay=None, out=sys.stdout):
             "case": small,
             "differences": [{"line": l, "impl": a, "model": b} for (_, l, a, b) in obs2[:5]]}))
 
-    # broken tie and the oracle is happy so far: directed search on the real code
+    # broken tie and no unexplained oracle failure so far: directed search on the real code
     searched = 0
-    if tie_problems and not violations and not known_lines:
+    if tie_problems and not violations:
         say("[%s] tie broken (%s); searching the implementation for a failing input" % (
             pid, "; ".join(sorted(set(k for k, _, _ in tie_problems)))))
         sfn = getattr(mod, "search_cases", None)
@@ -568,6 +568,25 @@ def run_check(pid, tier="quick", seed=0, replay=None, out=sys.stdout):
         ts = time.time()
         srng = random.Random("%s/search/%s" % (pid, seed))
         found = None
+
+        def examine(batch):
+            """first failing case of the batch that is not a known finding: (case, replies, msg) or None"""
+            for cc, (rr, om) in zip(batch, run_impl(mod, batch)):
+                if om is None:
+                    continue
+                small = shrink_case(mod, cc, impl_fails, budget_s=5.0)
+                rr2, om2 = _impl_one(mod, small)
+                if om2 is None:
+                    small, rr2, om2 = cc, rr, om
+                kf = match_known(mod, small)
+                if kf is not None:
+                    line = "KNOWN-FINDING: property=%s %s" % (pid, kf.get("what", ""))
+                    if line not in known_lines:
+                        known_lines.append(line)
+                    continue
+                return small, rr2, om2
+            return None
+
         gens = [sfn(srng, tier)] if sfn else []
         gens.append(mod.gen_cases(srng, "thorough"))
         for g in gens:
@@ -575,38 +594,24 @@ def run_check(pid, tier="quick", seed=0, replay=None, out=sys.stdout):
             for c in g:
                 batch.append(c)
                 if len(batch) >= 2000:
-                    for cc, (rr, om) in zip(batch, run_impl(mod, batch)):
-                        if om is not None:
-                            found = (cc, rr, om)
-                            break
+                    found = examine(batch)
                     searched += len(batch)
                     batch = []
                     if found or time.time() - ts > budget:
                         break
             if not found and batch and time.time() - ts <= budget:
-                for cc, (rr, om) in zip(batch, run_impl(mod, batch)):
-                    if om is not None:
-                        found = (cc, rr, om)
-                        break
+                found = examine(batch)
                 searched += len(batch)
             if found or time.time() - ts > budget:
                 break
         if found:
-            c, replies, omsg = found
-            small = shrink_case(mod, c, impl_fails)
-            replies2, omsg2 = _impl_one(mod, small)
-            if omsg2 is None:
-                small, replies2, omsg2 = c, replies, omsg
-            kf = match_known(mod, small)
-            if kf is not None:
-                known_lines.append("KNOWN-FINDING: property=%s %s" % (pid, kf.get("what", "")))
-            else:
-                rel = write_replay(mod, "impl-violation", {
-                    "seed": seed, "tier": tier, "case": small, "impl_replies": replies2, "oracle": omsg2,
-                    "tie_problems": [{"kind": k, "what": t} for k, t, _ in tie_problems],
-                    "how_to_replay": "./check %s --replay <this file>" % pid})
-                violations.append("VIOLATION property=%s replay=%s" % (pid, rel))
-        if not found:
+            small, replies2, omsg2 = found
+            rel = write_replay(mod, "impl-violation", {
+                "seed": seed, "tier": tier, "case": small, "impl_replies": replies2, "oracle": omsg2,
+                "tie_problems": [{"kind": k, "what": t} for k, t, _ in tie_problems],
+                "how_to_replay": "./check %s --replay <this file>" % pid})
+            violations.append("VIOLATION property=%s replay=%s" % (pid, rel))
+        else:
             rel = write_replay(mod, "tie-broken", {
                 "seed": seed, "tier": tier,
                 "no_longer_checks": [{"kind": k, "what": t, "detail": d} for k, t, d in tie_problems],
